@@ -7,17 +7,30 @@ model is written to at least one file, and the text produced for a file contains
 attributed to that file and loads on its own. Removing a file removes exactly the elements attributed to it
 alone, together with their index entries, and leaves the content of every other file unchanged."
 
-Model: every node carries its LOCAL file set (`Hdr.files`, empty = inherited); `effective` is the set
-`file_membership()` reports (nearest non-empty local set on the way up); `create_file` adds the file to the
-root's local set (`Driver/World.lean: opMkFile`).
-Proved for all chains: an element without a local set has exactly its parent's effective set, one with a
-local set has that set, and — since the root of a model with files has a non-empty local set — EVERY element
-has a non-empty effective set (`C10_every_element_in_some_file`): nothing can be lost on write for lack of a file.
-Partial: the file-set operations themselves (`add_to_file`, `remove_from_file`, `remove_file`) are not yet in
-the Lean model (histories are compared up to the first such request); containment in the parent's set,
-self-contained files and `remove_file` are checked on the real library by the `files` histories and the merge scenario.
+Model: every node carries its LOCAL file set (`Hdr.files`, empty = inherited); `effective` / `membership` is the set
+`file_membership()` reports (nearest non-empty local set on the way up).  `Model/FileOps.lean` models
+`create_file`, `add_to_file` with its upward walk `add_to_file_restricted`, `remove_from_file` (with the deletion of
+elements left in no file) and `remove_file` (with `Vec::swap_remove`); the driver answers the `mkfile`, `addfile`,
+`rmfromfile`, `rmfile` requests with them and the full dumps (local file set of every element, file list in order) are
+compared with the library after every request.
+
+Proved for all trees and all arguments:
+* the INVARIANT "every local file set lies within the effective set of the parent" (`World.filesOk`) is preserved by
+  `create_file`, `add_to_file`, `remove_from_file`, `remove_file`, `remove_sub_element` and `create_sub_element`
+  (`C10_*_keeps_parent_files`): the part of the statement "an element is only ever restricted to files that also contain
+  its parent".  The proof of `add_to_file` is an induction along the upward walk: while the walk continues the invariant
+  holds for the parent's set extended by the file, also after the parent has pinned its other children;
+* an element without a local set has exactly its parent's effective set, one with a local set has that set, and every
+  element of a model whose root is in a file has a non-empty effective set (`C10_every_element_in_some_file`).
+NOT preserved by the library (known findings, so no theorem): `move_element_here` keeps the local sets of the moved
+element's descendants; `add_to_file` accepts a file already removed from the model; SHORT-NAME with a set of its own.
+Partial: "the text of a file contains exactly the elements attributed to it and loads on its own" and the exactness of
+`remove_file` with respect to index entries are decided by the oracle on the library (histories of kind `files`
+including `load`, and the merge scenario).
 -/
 import AutosarVerif.Lemmas.Files
+import AutosarVerif.Lemmas.FileOps
+import AutosarVerif.Model.ToySpec
 
 namespace AV.C10
 open AV.W
@@ -29,8 +42,39 @@ theorem C10_local_set_wins (c : List (Hdr × Items)) (h : Hdr) (k : Items) (hne 
 theorem C10_every_element_in_some_file (root : Hdr × Items) (rest : List (Hdr × Items)) (hr : root.1.files ≠ []) :
     effective (root :: rest) ≠ [] := effective_nonempty root rest hr
 
+theorem C10_add_to_file_keeps_parent_files (S : Spec) (w : World) (x f : Nat) (hw : w.filesOk) :
+    (opAddFile S w x f).1.filesOk := opAddFile_ok S w x f hw
+theorem C10_remove_from_file_keeps_parent_files (S : Spec) (w : World) (x f : Nat) (hw : w.filesOk) :
+    (opRmFromFile S w x f).1.filesOk := opRmFromFile_ok S w x f hw
+theorem C10_remove_file_keeps_parent_files (S : Spec) (w : World) (k f : Nat) (hw : w.filesOk) :
+    (opRmFile S w k f).1.filesOk := opRmFile_ok S w k f hw
+theorem C10_create_file_keeps_parent_files (S : Spec) (w : World) (k : Nat) (name : Bytes) (ver : Nat) (valid : Bool)
+    (hw : w.filesOk) : (opMkFile S w k name ver valid).1.filesOk := opMkFile_ok S w k name ver valid hw
+theorem C10_remove_sub_element_keeps_parent_files (S : Spec) (w : World) (p c : Nat) (hw : w.filesOk) :
+    (opRemove S w p c).1.filesOk := opRemove_ok S w p c hw
+theorem C10_create_sub_element_keeps_parent_files (S : Spec) (V : Env) (w : World) (p name : Nat) (pos : Option Nat)
+    (hw : w.filesOk) : (opCreate S V w p name pos).1.filesOk := opCreate_ok S V w p name pos hw
+
+/-- the walk of `add_to_file` one level: the statement the induction carries -/
+theorem C10_add_walk (S : Spec) (f : Nat) (its : Items) (path pe : List Nat) (ps : Bool) (h : FilesOk pe its) :
+    ((addPath S f path pe ps its).2 = false → FilesOk pe (addPath S f path pe ps its).1) ∧
+    ((addPath S f path pe ps its).2 = true → FilesOk (pe ++ [f]) (addPath S f path pe ps its).1) :=
+  ⟨(addPath_ok S f its path pe ps h).1, fun hq => ((addPath_ok S f its path pe ps h).2 hq).1⟩
+
 /-! non-vacuity -/
 def hdr (id : Nat) (files : List Nat) : Hdr := { id := id, name := 0, ety := ⟨0, 0⟩, parent := .none, attrs := [], files := files, comment := none }
 example : effective [(hdr 0 [1, 2], .nil), (hdr 1 [], .nil), (hdr 2 [2], .nil), (hdr 3 [], .nil)] = [2] := by decide
+
+-- toy specification (root splittable): root in file 0 with children A (id 1) and B (id 2), neither with a set of its own
+def kids : Items := .elem (hdr 1 []) .nil (.elem (hdr 2 []) .nil .nil)
+example : FilesOk [0] kids := by simp [FilesOk, kids, hdr]
+/-- (id, local file set) of every element, document order -/
+def sets (its : Items) : List (Nat × List Nat) := its.hdrs.map fun h => (h.id, h.files)
+-- A is added to file 1: A = {0,1}, the root = {0,1}, and B is pinned to {0} (it is not in file 1)
+example : sets (addPath toySpec 1 [0, 1] [] true (.elem (hdr 0 [0]) kids .nil)).1 = [(0, [0, 1]), (1, [0, 1]), (2, [0])] := by decide
+-- then the root is removed from file 0 (what `remove_file` does): A = {1}, B had {0} only and is left with the empty set (doomed)
+example : sets (rmAt 0 0 [] (.elem (hdr 0 [0, 1]) (.elem (hdr 1 [0, 1]) .nil (.elem (hdr 2 [0]) .nil .nil)) .nil)) =
+    [(0, [1]), (1, [1]), (2, [])] := by decide
+example : (swapRemove [{ id := 0, name := [], version := 1 }, { id := 1, name := [], version := 1 }, { id := 2, name := [], version := 1 }] 0).map (·.id) = [2, 1] := by decide
 
 end AV.C10
